@@ -731,7 +731,7 @@ STRDATE2_GRID = [None, "2020/02/29", "1999/12/31"]
 STRDATETIME2_GRID = [None, "2020-02-29T23:59:58", "1999-12-31T00:00:00"]
 GRIDS = {"numr": NUMR_GRID, "str2": STR2_GRID, "strdate2": STRDATE2_GRID, "strdatetime2": STRDATETIME2_GRID, "num": NUM_GRID, "numx": NUMX_GRID, "int": INT_GRID, "bool": BOOL_GRID, "str": STR_GRID, "date": DATE_GRID, "datetime": DATETIME_GRID, "strdate": STRDATE_GRID, "strdatetime": STRDATETIME_GRID}
 #: value domains of the groups (<= 3 rows incl. nulls) used for aggregators and window functions
-GROUP_GRIDS = {"num": [None, -1.0, 1.0, 2.5], "bool": [None, True, False]}
+GROUP_GRIDS = {"num": [None, -1.0, 1.0, 2.5], "bool": [None, True, False], "numnan": [None, 1.0, float("nan")]}  # numnan: count only (NaN is a missing cell: 'non-NA cells')
 
 
 class Method:
@@ -1087,6 +1087,9 @@ def _variant_methods() -> List[Method]:
     # --- shift amounts: further back, forward (negative), beyond the partition
     for k in (1, 2, 3, -1, -2):
         V.append(Method("w", "x.shift()", "v.shift(%d)" % k, ["num"], _win("shift", k), None, NOTE_CONST + "; shift(0) is refused by the builder", None, "periods=%d" % k, (k,)))
+    # --- count over groups that hold NaN: documented 'number of non-NA cells' -- NaN is NA (native Polars frames keep NaN apart from null)
+    for cls, wrap_ in (("g", _const), ("p", lambda f: f)):
+        V.append(Method(cls, "z.count()", "v.count()", ["numnan"], wrap_(lambda vals: len([v for v in vals if v is not None and v == v])), None, "groups with NaN items", None, "nan-items"))
     # --- sum of a constant
     for cls, wrap_ in (("g", _const), ("p", lambda f: f)):
         for c, txt in ((0, "(0)"), (2, "(2)"), (-1, "(-1)")):
